@@ -75,6 +75,10 @@ def showOutcome (calls : List Call) (res : Res) (extras : List String) : String 
   let e := if extras.isEmpty then "" else " ; " ++ " ".intercalate extras
   s!"{calls.length} {" ".intercalate cs} ; {showRes res}{e}"
 
+/-- the wire phase reports a request that never reached the controller stand-in by name: an empty payload -/
+def wireHex (h : String) : Option Bytes :=
+  if h = "nothing-on-the-wire" then some [] else fromHex h
+
 /-- parse an implementation outcome line back -/
 def parseOutcome (ts : List String) : Option (List Call × Res × List String) :=
   match ts with
@@ -85,9 +89,9 @@ def parseOutcome (ts : List String) : Option (List Call × Res × List String) :
       let k ← n.toNat?
       let calls ← (match pre with
         | [] => some []
-        | [p, e, h] => (fromHex h).map fun b => [Call.mk p e b]
+        | [p, e, h] => (wireHex h).map fun b => [Call.mk p e b]
         | [p, e, h, p2, e2, h2] => do
-          let b ← fromHex h; let b2 ← fromHex h2
+          let b ← wireHex h; let b2 ← wireHex h2
           some [Call.mk p e b, Call.mk p2 e2 b2]
         | _ => none)
       if calls.length ≠ k ∧ k ≤ 2 then none else
